@@ -24,13 +24,13 @@ META = {
         "xsdata.formats.dataclass.serializers.dict:DictEncoder.encode", "xsdata.utils.namespaces:build_qname", "xsdata.utils.namespaces:split_qname",
     ],
     "bounds": [
-        "histories of <= 3 (quick) / <= 4 (thorough) operations, each a selector into a pool of 34 operations (incl. one ENVIRONMENT step: a module with a second class for an already resolved qualified name is imported) (serialize / parse / encode / decode over ParentA, ParentB, Child, "
+        "histories of <= 3 (quick: third operation from 12 state-observing ones) / <= 4 (thorough) operations, each a selector into a pool of 34 operations (incl. one ENVIRONMENT step: a module with a second class for an already resolved qualified name is imported) (serialize / parse / encode / decode over ParentA, ParentB, Child, "
         "Holder with xsi:type, Wild with wildcard namespace memo, Lists, Basic; lookups without a target class; three failing calls), applied to ONE shared XmlContext, "
         "NodeParser (native and lxml seam handlers), EventGenerator, DictEncoder and DictDecoder; every call's outcome (value or exception class) is compared with the same call on fresh instances",
         "selector driven: every history within the bound is executed (the solver only prunes and enumerates); nothing here is value-symbolic",
     ],
     "outside": ["longer histories", "models outside the pool", "the text layer"],
-    "stubs": ["SAX seam", "XmlContext.get_subclasses(object) iterates the model pool"],
+    "stubs": ["SAX seam", "XmlContext.get_subclasses(object) iterates the model pool (a mutable list: the environment step appends to it)", "each history runs in a forked child of the worker (process-wide state stays pristine between histories)"],
     "assumptions": [],
 }
 
@@ -258,12 +258,24 @@ def _excluded(ops):
     return len(seen) > 1
 
 
+# quick tier: the third operation of a length-3 history is one of the operations that OBSERVE shared state most directly
+QUICK_THIRDS = [1, 5, 8, 11, 14, 19, 25, 26, 28, 29, 31, 32]
+
+
+def _third_ok(o2):
+    allowed = PART.get("_thirds")
+    if allowed is None or o2 < 0:
+        return True
+    return any([o2 == x for x in allowed])
+
+
 def history(o0: int, o1: int, o2: int) -> bool:
     """
     pre: o0 == PART.get("first", 0)
     pre: 0 <= o1 < len(OPS)
     pre: -1 <= o2 < len(OPS)
     pre: o2 < PART.get("third", 0)
+    pre: _third_ok(o2)
     post: _
     """
     ops = [concretize(o0, len(OPS)), concretize(o1, len(OPS))]
@@ -308,19 +320,51 @@ def _history(ops):
     if _excluded(ops):
         return True
     with untraced():  # the history is concrete on this path: no symbolic value flows below
-        _world_reset()
-        shared = Env()
-        ok = True
-        world_changed = False
-        for o in ops:
-            got = _outcome(OPS[o][1], shared)
-            want = _outcome(OPS[o][1], Env())
-            ok = ok and _same(got, want)
-            world_changed = world_changed or o == _IMPORT_OP
-            alone = None if world_changed else _pristine(o)
-            if alone is not None:
-                ok = ok and _same(got, alone)
-    return result(ok)
+        return result(_isolated(ops))
+
+
+def _isolated(ops):
+    """The history runs in a forked child: whatever process-wide state xsdata keeps (module-level memo tables, the converter registry)
+    is left untouched in this process, so every history starts from the state of a freshly imported library and a counterexample replays."""
+    import os
+
+    r, w = os.pipe()
+    pid = os.fork()
+    if pid == 0:
+        code = b"E"
+        try:
+            os.close(r)
+            code = b"1" if _run_history(ops) else b"0"
+        except BaseException:  # noqa: BLE001
+            code = b"E"
+        finally:
+            try:
+                os.write(w, code)
+            finally:
+                os._exit(0)
+    os.close(w)
+    data = os.read(r, 1)
+    os.close(r)
+    os.waitpid(pid, 0)
+    if data == b"E" or not data:
+        raise RuntimeError("history child failed")
+    return data == b"1"
+
+
+def _run_history(ops):
+    _world_reset()
+    shared = Env()
+    ok = True
+    world_changed = False
+    for o in ops:
+        got = _outcome(OPS[o][1], shared)
+        want = _outcome(OPS[o][1], Env())
+        ok = ok and _same(got, want)
+        world_changed = world_changed or o == _IMPORT_OP
+        alone = None if world_changed else _pristine(o)
+        if alone is not None:
+            ok = ok and _same(got, alone)
+    return ok
 
 
 def cache_witness():
@@ -372,7 +416,10 @@ def plan(tier):
     solo = _solo_dir()
     for first in range(len(OPS)):
         jobs.append(Job("history", {"first": first, "third": 0, "_solo": solo}, 240, 60, note="selector driven, length 2"))
-        jobs.append(Job("history", {"first": first, "third": len(OPS), "_solo": solo}, 600, 60, note="selector driven, length 2 and 3"))
+        part = {"first": first, "third": len(OPS), "_solo": solo}
+        if tier == "quick":
+            part["_thirds"] = QUICK_THIRDS
+        jobs.append(Job("history", part, 600, 60, note="selector driven, length 2 and 3"))
         if tier != "quick":
             for second in range(len(OPS)):
                 if _excluded([first, second]):
